@@ -120,6 +120,7 @@ class Interp:
         self.summarise_traits = set()   # local traits whose dyn calls are kept as abstract operations
         self.track_fd = False
         self._fdw = {}
+        self.dyn_force = {}       # trait path -> implementor type string (specialisation of dyn dispatch)
 
     # ------------------------------------------------------------------ run
 
@@ -1148,7 +1149,7 @@ class Interp:
                 impls = self.traits[c['trait']]['impls']
                 recv = self.peel(st, args[0])
                 key = ('dyn', self.own_identity(st, recv))
-                choice = st.facts.get(key)
+                choice = self.dyn_force.get(c['trait']) or st.facts.get(key)
                 if choice is None:
                     opts = [(imp['self_ty_s'], {'k': 'dyn', 'trait': c['trait'], 'impl': imp['self_ty_s'], 'recv': recv})
                             for imp in impls]
